@@ -62,6 +62,7 @@ func (m *hllRedis) Exec(op Tok) (opOut Tok, obs Tok) {
 		// the key names are only known for a successful construction; a failed one (m = 1) has
 		// already written its metadata hash under a key the model never needs again
 		opOut = TL(a[0], a[1], a[2], TNu(0), TBs([]byte("?key")), TBs([]byte("?meta")))
+		before := redisKeys()
 		h, err := gx.NewHyperLogLogRedis(a[2].U())
 		if err != nil {
 			return opOut, TErr(errGeneric)
@@ -69,6 +70,9 @@ func (m *hllRedis) Exec(op Tok) (opOut Tok, obs Tok) {
 		_, _, _, key, meta := gx.VerifHLLRedisState(h)
 		opOut = TL(a[0], a[1], a[2], TNu(m.noteAlpha(h)), TBs([]byte(key)), TBs([]byte(meta)))
 		m.inst[a[1].I()] = h
+		if t, bad := staleKey(before, key, meta); bad {
+			return opOut, t
+		}
 		return opOut, TOk(TUnit())
 	case hlUpdate:
 		h := m.inst[a[1].I()]
@@ -160,12 +164,16 @@ func (m *hllRedis) Exec(op Tok) (opOut Tok, obs Tok) {
 		if h == nil || !ok {
 			return TL(a[0], a[1]), inv
 		}
+		before := redisKeys()
 		err := h.Import(src, a[3].U() != 0)
 		_, _, alpha, key, _ := gx.VerifHLLRedisState(h)
 		m.orc.addFloat(alpha)
 		opOut = TL(a[0], a[1], hllDocTok(src), TBs([]byte(key)))
 		if err != nil {
 			return opOut, TErr(errGeneric)
+		}
+		if t, bad := staleKey(before, key); a[3].U() != 0 && bad {
+			return opOut, t
 		}
 		return opOut, TOk(TUnit())
 	}
